@@ -37,6 +37,10 @@ def shared_state_mutations(fn: ast.FunctionDef, shared_pred):
         if isinstance(e, ast.Call) and isinstance(e.func, ast.Attribute):
             if e.func.attr in VIEW_METHODS:
                 return root_of(e.func.value)
+            # np.asarray & co. return their argument itself when it already is an array of the right type: a view, not a copy
+            if src(e.func) in ("np.asarray", "np.asanyarray", "np.ascontiguousarray", "numpy.asarray", "np.atleast_1d") and e.args \
+                    and not any(k.arg == "copy" for k in e.keywords):
+                return root_of(e.args[0])
             return None
         return None
 
